@@ -129,7 +129,6 @@ fn case_fn(case: &mut Case) -> CaseResult {
         let mut r = RenderOpts::wild();
         r.allow_cooked_block = false;
         r.allow_block = false;
-        r.allow_surrogate_escape = false;
         r.allow_shorthand = false;
         render_op_doc(&doc, r, Some(&mut case.ch)).text
     } else {
